@@ -32,6 +32,12 @@ class FuncInfo:
         self.is_classmethod = "classmethod" in decos
         self.is_staticmethod = "staticmethod" in decos
         self.is_property = "property" in decos or any(d.endswith("cached_property") for d in decos)
+        # decorators Python *executes* and the extraction does not interpret (memoisation, wrappers, ...): a function carrying one is
+        # outside the subset -- dropping e.g. @lru_cache silently would verify a body that is not what runs on the second call
+        known = ("classmethod", "staticmethod", "property", "abstractmethod", "abc.abstractmethod", "overload", "typing.overload",
+                 "override", "typing.override", "final", "typing.final")
+        self.unmodelled_decorators = [d for d in decos if d not in known and not d.endswith(".setter")
+                                      and not d.split("(")[0].endswith("dataclass")]
         a = node.args
         self.params = [x.arg for x in a.posonlyargs + a.args]
         self.kwonly = [x.arg for x in a.kwonlyargs]
